@@ -414,6 +414,7 @@ def run(ctx, replay=None):
         progs += gen.generate(ctx.seed * 1000 + 77, n - len(progs), 'objectives', 'quick')
         cfgsets = [all_configs(r, any(o[0] == 'ONewObjective' for o in p), 2) for p in progs]
         # the corpus (witnesses of the listed findings, with their configurations) runs first
+        abort_flags = [False] * len(progs)
         cdir = os.path.join(common.VERIF, 'corpus', ctx.prop)
         if os.path.isdir(cdir):
             for fn in sorted(os.listdir(cdir), reverse=True):
@@ -421,6 +422,7 @@ def run(ctx, replay=None):
                     j = json.load(open(os.path.join(cdir, fn)))
                     progs.insert(0, terms.from_jsonable(j['program']))
                     cfgsets.insert(0, j['configs'])
+                    abort_flags.insert(0, 'F48' in fn)
     else:
         progs = [conflicting_program(r) for _ in range(n * 3 // 4)] + [engine_solver.small_program(r) for _ in range(n - n * 3 // 4)]
         cdir = os.path.join(common.VERIF, 'corpus', ctx.prop)
@@ -430,9 +432,39 @@ def run(ctx, replay=None):
                     progs.insert(0, terms.from_jsonable(json.load(open(os.path.join(cdir, fn)))['program']))
         cfgsets = [[dict(debug=True), dict()] for _ in progs]
     small = [i < (n * 2 // 3) or cfg['mode'] == 'debug' or replay is not None for i in range(len(progs))]
+    ctx._abort_cases = [i for i, f_ in enumerate(locals().get('abort_flags', [])) if f_]
     t1 = time.time()
     jobs = [(i, p, cfgsets[i], None, ctx.seed, small[i]) for i, p in enumerate(progs)]
-    results = common.pmap(observe_setup if cfg['mode'] == 'options' else observe_debug, jobs)
+    obs = observe_setup if cfg['mode'] == 'options' else observe_debug
+    # the corpus witness of F48 kills its worker process: it runs in a pool of its own, so that the other cases are not rerun
+    abort_idx = set(getattr(ctx, '_abort_cases', []))
+    results = [None] * len(jobs)
+    for j in [j for j in jobs if j[0] in abort_idx]:
+        results[j[0]] = common.pmap(obs, [j], procs=1)[0]
+    rest = [j for j in jobs if j[0] not in abort_idx]
+    for j, res_ in zip(rest, common.pmap(obs, rest)):
+        results[j[0]] = res_
+    # a case on which the worker process died: run its configurations one by one to see which of them kills the process.
+    # z3 aborts (ASSERTION VIOLATION in ast.cpp) on some infeasible problems when an unsat core is asked from z3.Optimize, i.e.
+    # with debug=True and optimizer='optimize' (finding F48): those configurations are set aside, the others are used
+    z3_aborts = 0
+    for ri, res in enumerate(results):
+        if res.get('crashed'):
+            i = res['idx']
+            singles = common.pmap(obs, [(i, progs[i], [c], None, ctx.seed, small[i]) for c in cfgsets[i]])
+            dead = [c for c, sres in zip(cfgsets[i], singles) if sres.get('crashed')]
+            if dead and all(c.get('debug') and c.get('optimizer') == 'optimize' for c in dead):
+                merged = None
+                for c, sres in zip(cfgsets[i], singles):
+                    if sres.get('crashed'):
+                        continue
+                    if merged is None:
+                        merged = sres
+                    else:
+                        merged['per_cfg'] += sres.get('per_cfg', [])
+                if merged is not None:
+                    results[ri] = merged
+                    z3_aborts += len(dead)
     t_impl = time.time() - t1
     # model side: one set-up report per (program, configuration)
     flat = []
@@ -476,6 +508,11 @@ def run(ctx, replay=None):
     findings = common.load_findings(ctx.prop)
     open_kinds = {f['clause_kind']: f for f in findings if f['status'] == 'open'}
     known_hits = collections.Counter()
+    if z3_aborts:
+        if 'z3-abort-debug-optimize' in open_kinds:
+            known_hits['z3-abort-debug-optimize'] += z3_aborts
+        else:
+            viol.append((0, None, ('z3-abort-debug-optimize', None, 'the process is killed by z3 under debug=True, optimizer="optimize"')))
     for res in results:
         if res.get('status') != 'ok':
             continue
